@@ -43,6 +43,8 @@ def build_models(spec):
                 meta['constraints'] = [make_constraint(d) for d in m['constraints']]
             if m.get('comment'):
                 meta['db_table_comment'] = m['comment']
+            if m.get('managed') is False:
+                meta['managed'] = False
             attrs['Meta'] = type('Meta', (), meta)
             import warnings
             with warnings.catch_warnings():
